@@ -246,7 +246,7 @@ pub fn install_panic_hook() {
         let file = info.location().map(|l| l.file().to_string()).unwrap_or_default();
         // plugin code only ever runs inside spawned tasks; the driver is the root future
         let in_task = tokio::task::try_id().is_some();
-        if !in_task || (!file.starts_with("/repo/") && !file.contains("/.cargo/") && !file.contains("/rustc/") && !file.contains("/library/")) {
+        if !in_task || (!file.starts_with(concat!(env!("VFH_REPO_DIR"), "/")) && !file.contains("/.cargo/") && !file.contains("/rustc/") && !file.contains("/library/")) {
             eprintln!("HARNESS PANIC (harness code): {} at {}", msg, loc);
             std::process::exit(2);
         }
@@ -561,6 +561,8 @@ impl Driver {
                 }
                 None => self.diverged += 1,
             },
+            // the design's switch to its probe phase (the instance's own probe HTLCs follow as ordinary arrivals)
+            "phase" => self.line(json!({"ev":"phase"})),
             "tick" => {
                 sim::with(|s| s.now += 1);
                 crate::clock::set_secs((crate::clock::EPOCH_SECS + sim::with(|s| s.now)).saturating_sub(self.wall_back));
